@@ -44,11 +44,19 @@ def e1_cases(tier):
     for c in ("AnyBetween", "AnyButBetween"):
         cs.append(engine.exc_case("%s(A0, 'm')" % c, S, one, allowed=["InvalidRangeException"], name="%s(c, 'm')" % c))
         cs.append(engine.exc_case("%s('m', A0)" % c, S, one, allowed=["InvalidRangeException"], name="%s('m', c)" % c))
+        # one symbolic endpoint against every character that is escaped or has a meaning inside a class
+        if tier == "thorough" or c == "AnyBetween":
+            for sp in ("-", "\\", "]", "[", "^", "$", "/"):
+                cs.append(engine.exc_case("%s(A0, %r)" % (c, sp), S, one, allowed=["InvalidRangeException"], name="%s(c, %r)" % (c, sp)))
+                cs.append(engine.exc_case("%s(%r, A0)" % (c, sp), S, one, allowed=["InvalidRangeException"], name="%s(%r, c)" % (c, sp)))
         if tier == "thorough":
             cs.append(engine.exc_case("%s(A0, A1)" % c, two, both1, allowed=["InvalidRangeException"], name="%s(c, d)" % c))
     alg = ["AnyBetween('a', 'f') | A0", "A0 | AnyBetween('a', 'f')", "AnyLetter() - A0", "A0 - AnyFrom('a', 'b')", "~AnyFrom(A0)", "~AnyFrom(A0, 'x')",
            "AnyFrom(A0) | AnyFrom('[', 'x')", "AnyBetween('[', 'a') - A0", "~AnyButFrom(A0)", "AnyFrom(A0) - AnyFrom('a')"]
-    for a in (alg if tier == "thorough" else alg[:6]):
+    alg2 = ["(AnyBetween('a', 'f') | A0) | AnyBetween('e', 'l')", "(AnyBetween('c', 'f') | AnyBetween('e', 'l')) | A0",
+            "(AnyBetween('e', 'l') | A0) - AnyBetween('a', 'f')", "(AnyFrom('a', 'c') | A0) | AnyBetween('b', 'k')"]
+    alg = alg[:6] + alg2 + alg[6:]
+    for a in (alg if tier == "thorough" else alg[:10]):
         cs.append(engine.exc_case(a, S, one, allowed=["EmptyClassException"], name="class algebra %s" % a))
     # numeric parameters of the meta patterns
     cs.append(engine.exc_case("Word(n, m)", [("n", "int"), ("m", "Opt[int]")], ["-1 <= n and n <= 4 and (m is None or (-1 <= m and m <= 4))"], allowed=[V], name="Word(min, max) symbolic"))
